@@ -89,6 +89,14 @@ def process(tier, rng, cicada):
         {"argv": [["argv", "one", "two"]], "trace": ["3:0", "1:5", "9:5"], "rc": 5})
     add("sourcestatus", {"s.sh": "source a.sh\nstage 2 $?\n", "a.sh": "stage 1 6\n"}, ["s.sh"], {"trace": ["1:6", "2:6"], "rc": 6})
 
+    # a function called while an earlier call of it is still active: direct recursion, and f -> g -> f (every call finds the function defined,
+    # gets the arguments of ITS call, and the callers go on after it returns)
+    add("recursion", {"s.sh": 'function f() {\n    stage 1$1 0\n    if test -n "$1"\n        f $2 $3\n    fi\n    stage 9$1 0\n}\nf a b\nstage 5 $?\n'}, ["s.sh"],
+        {"trace": ["1a:0", "1b:0", "1:0", "9:0", "9b:0", "9a:0", "5:0"], "rc": 0})
+    add("mutual", {"s.sh": 'function f() {\n    stage f$1 0\n    if test -n "$1"\n        g $2\n    fi\n}\nfunction g() {\n    stage g$1 0\n    f $1\n}\nf a b\n'}, ["s.sh"],
+        {"trace": ["fa:0", "gb:0", "fb:0", "g:0", "f:0"], "rc": 0})
+    add("twice", {"s.sh": 'function f() {\n    stage 1 $1\n}\nf 0\nf 3\nf 0 && f 4\nstage 2 $?\n'}, ["s.sh"], {"trace": ["1:0", "1:3", "1:0", "1:4", "2:4"], "rc": 4})
+
     res = []
 
     def one(sc):
